@@ -141,6 +141,12 @@ def answer (line : String) : String :=
     match parseList parseInt xs with
     | some xs => hexOf (encDecArr xs)
     | none => "bad-op"
+  | ["WW", ops, hex, off, sz] =>           -- program, then Write(b, off, sz)
+    match parseOps ops, ofHex hex, parseNat off, parseNat sz with
+    | some ops, some b, some off, some sz =>
+      let w := (Writer.exec ops).window b off sz
+      s!"{hexOf w.buf} {w.written}"
+    | _, _, _, _ => "bad-op"
   | ["H", src, ver, pcode, lic, ops] =>     -- program, then WriteHeader
     match parseNat src, parseNat ver, parseInt pcode, parseInt lic, parseOps ops with
     | some src, some ver, some pcode, some lic, some ops =>
